@@ -223,7 +223,6 @@ func SortedLocks(m map[string]bool) string {
 	return strings.Join(out, ",")
 }
 
-
 // EntryLocks: the locks held at every call site of the unexported function fn (translated to
 // fn's own naming: a lock `recv.mutex` of the caller is `recv.mutex` of a callee invoked on the
 // same receiver). Empty when fn is exported, has no static call site, is used as a value, or
